@@ -20,6 +20,10 @@ func checkC01(p *Prog, c *Check) {
 	if accept, err := p.validationConst("ValidationAccept"); c.Must(err) {
 		c04Gossip(p, c, accept)
 	}
+	// "exactly when it holds t distinct valid shares": every path that stores shares reaches an
+	// aggregation attempt, and the aggregation pass does not stop at an identity that is short of shares
+	storedSharesAreAggregated(p, c, "C03-R11")
+	aggregationSkipsShortIdentities(p, c, "C03-R12")
 	ekg, err := p.Named("keyper/epochkg.EpochKG")
 	if !c.Must(err) {
 		return
